@@ -27,6 +27,7 @@ type gen struct {
 	apiReexports bool
 	noChains     bool
 	sweepHot     int    // how many of the recently written addresses a sweep reads back
+	tail         bool   // generated modules get the tail-call forms (and the runtime the tail-call feature)
 	instTag      string // tag of instantiation steps (scenario families with their own signatures)
 	counts       map[string]int
 	lastW        map[int]string // object id -> instance through which it was last written
@@ -39,7 +40,9 @@ func newGen(r *core.Rng, name string, pageLimit uint32, threads, host bool) *gen
 
 func (g *gen) count(k string) { g.counts[k]++ }
 
-func isWrapper(op string) bool { return op == "ci" || op == "cim" || op == "cig" || op == "cit" }
+func isWrapper(op string) bool {
+	return op == "ci" || op == "rci" || op == "cim" || op == "cig" || op == "cit"
+}
 
 func (g *gen) resolve(f *mFunc) *mFunc {
 	for f.host == "" && isWrapper(f.sem.Op) {
@@ -72,7 +75,12 @@ func objOf(in *mInst, s Sem) (id int, imported bool, owners int, kind string) {
 	case "g2t":
 		t := in.tabs[s.B]
 		return t.id, s.B < in.lay.NImpT, t.owners, "table"
-	case "tsize", "tgrow", "tset", "tcall", "tisnull", "tfill", "tcopy", "tinit", "xgrow", "xset", "xget":
+	case "leaf4":
+		if in.lay.FT0 >= 0 {
+			t := in.tabs[in.lay.FT0]
+			return t.id, in.lay.FT0 < in.lay.NImpT, t.owners, "table"
+		}
+	case "tsize", "tgrow", "tset", "tcall", "rtcall", "tisnull", "tfill", "tcopy", "tinit", "xgrow", "xset", "xget":
 		t := in.tabs[s.A]
 		return t.id, s.A < in.lay.NImpT, t.owners, "table"
 	}
@@ -100,6 +108,8 @@ func (g *gen) tagFor(in *mInst, fidx int) (string, *mFunc) {
 	if f.host == "" && isWrapper(f.sem.Op) {
 		if f.sem.Op == "ci" {
 			pre += "via-import:"
+		} else if f.sem.Op == "rci" {
+			pre += "return_call-import:"
 		} else {
 			pre += "call-then-read(" + map[string]string{"cim": "memory", "cig": "global", "cit": "table"}[f.sem.Op] + "):"
 		}
@@ -157,6 +167,27 @@ func (g *gen) call(in *mInst, name string, args ...uint64) ([]uint64, string) {
 		g.count("op_" + eff.sem.Op)
 	} else {
 		g.count("op_host." + eff.host)
+	}
+	if f := in.funcs[fidx]; f.host == "" && isWrapper(f.sem.Op) {
+		g.count("op_" + f.sem.Op)
+	}
+	// indirect calls: whose function sits in the slot, relative to the instance executing the call
+	if eff.host == "" && (eff.sem.Op == "tcall" || eff.sem.Op == "rtcall") && len(args) > 0 {
+		rel := "none"
+		if t := eff.inst.tabs[eff.sem.A]; args[0] < uint64(len(t.slots)) && t.slots[args[0]].fn != nil {
+			switch callee := g.resolve(t.slots[args[0]].fn); {
+			case callee.host != "":
+				rel = "host"
+			case callee.inst == eff.inst:
+				rel = "same-instance"
+			case callee.inst.spec == eff.inst.spec:
+				rel = "sibling-instance-of-same-compiled-module"
+			default:
+				rel = "other-module"
+			}
+		}
+		tag += ":callee=" + rel
+		g.count("indirect_" + eff.sem.Op + "_callee_" + rel)
 	}
 	res, trap := g.m.call(in.funcs[fidx], args)
 	if trap != "" {
@@ -271,10 +302,27 @@ func (g *gen) noteHot(a uint32) {
 
 // instantiate appends an instantiation step; on success it also appends the
 // probes of every value captured by a constant expression.
-func (g *gen) instantiate(spec *ModSpec) instResult {
-	res := g.m.instantiate(spec)
-	g.sc.Mods = append(g.sc.Mods, spec)
-	st := Step{Kind: "inst", Inst: spec.Name, Mod: len(g.sc.Mods) - 1}
+func (g *gen) instantiate(spec *ModSpec) instResult { return g.instantiateAs(spec, spec.Name) }
+
+// instantiateAs instantiates spec under the given instance name; a spec that was instantiated before is NOT
+// compiled again: the new instance is a sibling of the earlier ones (same CompiledModule).
+func (g *gen) instantiateAs(spec *ModSpec, name string) instResult {
+	res := g.m.instantiateAs(spec, name)
+	mi := -1
+	for i, m := range g.sc.Mods {
+		if m == spec {
+			mi = i
+			g.count("sibling_instances_of_one_compiled_module")
+		}
+	}
+	if mi < 0 {
+		g.sc.Mods = append(g.sc.Mods, spec)
+		mi = len(g.sc.Mods) - 1
+	}
+	if spec.Tail {
+		g.sc.Tail = true
+	}
+	st := Step{Kind: "inst", Inst: name, Mod: mi}
 	st.Tag = g.instTag
 	if res.OK && usesMutableImportInConstExpr(spec) {
 		// a runtime may also reject such a module (the specification does): see runEngine
@@ -297,11 +345,11 @@ func (g *gen) instantiate(spec *ModSpec) instResult {
 	// writes made by the (possibly failed) instantiation
 	if in := res.Inst; in != nil {
 		if in.mem != nil && len(spec.Datas) > 0 {
-			g.lastW[in.mem.id] = spec.Name + "/init"
+			g.lastW[in.mem.id] = name + "/init"
 		}
 		for _, e := range spec.Elems {
 			if !e.Passive {
-				g.lastW[in.tabs[e.Table].id] = spec.Name + "/init"
+				g.lastW[in.tabs[e.Table].id] = name + "/init"
 			}
 		}
 	}
@@ -500,6 +548,9 @@ func (g *gen) refProbe(in *mInst, table int, slot uint32) {
 			x = 0 // an imported grow function sits in the table: observing it must not grow anything
 		}
 		g.call(in, fmt.Sprintf("tcall%d", table), uint64(slot), x)
+		if _, ok := in.lay.ByName[fmt.Sprintf("rtcall%d", table)]; ok {
+			g.call(in, fmt.Sprintf("rtcall%d", table), uint64(slot), x)
+		}
 	}
 }
 
@@ -582,6 +633,8 @@ func (g *gen) argsFor(f *mFunc) []uint64 {
 	switch s.Op {
 	case "leaf0", "leaf1":
 		return []uint64{uint64(r.Intn(1000))}
+	case "leaf4":
+		return []uint64{uint64(g.hopArg(in))}
 	case "leaf2":
 		return []uint64{uint64(g.addr(in.mem))}
 	case "leaf3", "gget", "msize", "tsize":
@@ -642,13 +695,13 @@ func (g *gen) argsFor(f *mFunc) []uint64 {
 		return []uint64{g.slot(in.tabs[s.A]), g.val(wenc.ExternRef)[0]}
 	case "xget", "tisnull":
 		return []uint64{g.slot(in.tabs[s.A])}
-	case "tcall":
+	case "tcall", "rtcall":
 		// the argument suits whatever sits in the slot (a leaf, or an imported accessor such as another module's mgrow)
 		sl := g.slot(in.tabs[s.A])
 		x := uint64(g.leafArg())
 		if t := in.tabs[s.A]; sl < uint64(len(t.slots)) && t.slots[sl].fn != nil {
 			if fn := t.slots[sl].fn; string(fn.typ.Params) == string(tI32) && string(fn.typ.Results) == string(tI32) {
-				if eff := g.resolve(fn); eff.host != "" || !strings.HasPrefix(eff.sem.Op, "leaf") {
+				if eff := g.resolve(fn); eff.host != "" || !strings.HasPrefix(eff.sem.Op, "leaf") || eff.sem.Op == "leaf4" {
 					x = g.argsFor(fn)[0]
 				}
 			}
@@ -663,6 +716,69 @@ func (g *gen) argsFor(f *mFunc) []uint64 {
 		return []uint64{g.slot(in.tabs[s.A]), uint64(r.Intn(n + 1)), uint64(r.Intn(n + 2))}
 	}
 	panic("argsFor: " + s.Op)
+}
+
+// initPrivate gives the instance-local state of `in` (its own memory and first own mutable numeric global)
+// values that depend on the instance, so that sibling instances of one compiled module differ.
+func (g *gen) initPrivate(in *mInst, salt int) {
+	for gi := in.lay.NImpG; gi < len(in.globs); gi++ {
+		if t := in.globs[gi].typ; t.Mutable && (t.Type == wenc.I32 || t.Type == wenc.I64) {
+			g.call(in, fmt.Sprintf("gset%d", gi), uint64(1000*salt+gi))
+			break
+		}
+	}
+	if in.spec.Mem != nil && len(in.mem.data) > 0 {
+		for _, a := range []uint32{1, 7, 33} {
+			g.call(in, "st8", uint64(a), uint64(0x10*salt+int(a))&0xff|1)
+			g.noteHot(a)
+		}
+	}
+}
+
+// hopArg builds an argument for L4 (a chain of up to three hops through the table of `in`, then a small value)
+// whose walk, in the current state, never hands a large number to a grow function sitting in a table.
+func (g *gen) hopArg(in *mInst) uint32 {
+	if in.lay.FT0 < 0 {
+		return uint32(g.r.Intn(1000))
+	}
+	for try := 0; try < 6; try++ {
+		x := uint32(0)
+		n := 1 + g.r.Intn(3)
+		x = uint32(1 + g.r.Intn(200)) // what the last callee gets
+		for i := 0; i < n; i++ {
+			x = x<<8 | uint32(g.slot(in.tabs[in.lay.FT0]))&0xff
+		}
+		if g.hopSafe(in, x) {
+			return x
+		}
+	}
+	return 0
+}
+
+func (g *gen) hopSafe(in *mInst, x uint32) bool {
+	for hops := 0; hops < 8; hops++ {
+		if x == 0 || in.lay.FT0 < 0 {
+			return true
+		}
+		t := in.tabs[in.lay.FT0]
+		slot, arg := x&0xff, x>>8
+		if slot >= uint32(len(t.slots)) || t.slots[slot].fn == nil {
+			return true
+		}
+		fn := t.slots[slot].fn
+		if string(fn.typ.Params) != string(tI32) || string(fn.typ.Results) != string(tI32) {
+			return true
+		}
+		eff := g.resolve(fn)
+		if eff.host == "hgrow" || (eff.host == "" && (eff.sem.Op == "mgrow" || eff.sem.Op == "tgrow")) {
+			return arg <= 2
+		}
+		if eff.host != "" || eff.sem.Op != "leaf4" {
+			return true
+		}
+		in, x = eff.inst, arg
+	}
+	return false
 }
 
 // leafArg: an argument that is meaningful whichever leaf is called (leaf2 uses it as an address).
@@ -862,7 +978,7 @@ func (g *gen) compatLimits(decl wenc.Limits, cur uint32, minCap uint32) wenc.Lim
 func (g *gen) genModule(name string) *ModSpec {
 	r := g.r
 	first := len(g.live) == 0
-	spec := &ModSpec{Name: name, ID: g.nextID}
+	spec := &ModSpec{Name: name, ID: g.nextID, Tail: g.tail}
 	g.nextID++
 	nImpG, nTab := 0, 0
 	var impGlobs []*mGlob
@@ -978,6 +1094,9 @@ func (g *gen) genModule(name string) *ModSpec {
 	usable := func(gl *mGlob) bool { return !gl.typ.Mutable || g.lenient }
 	// number of refable functions: 4 leaves + imported functions (see BuildLayout)
 	nRef := 4
+	if spec.Tail {
+		nRef = 5 // L4
+	}
 	for _, im := range spec.Imports {
 		if im.Ext.Kind == wenc.ExtFunc && (!im.Host || im.Name == "hadd") {
 			nRef++
